@@ -267,6 +267,11 @@ def explore(ctx):
         else:
             ds, fonts = dsgen.make_designspace(rng, masters, lib, instances=False)
             locs = [dict(s.location) for s in ds.sources]
+            if n == 3 and i % 8 in (0, 2):
+                # an axis <map> that is not the identity: the middle master sits at design 500, which is USER 400 (fvar, the
+                # variable features' locations and the instancer all speak user coordinates)
+                ds.axes[0].map = [(100, 100), (400, 500), (900, 900)]
+                ctx.klass("axis with a non-identity <map>")
         fn = ["compileVariableTTF", "compileVariableCFF2"][(i // 2) % 2]
         if diff2x2:
             fn = "compileVariableTTF"       # (CFF2 has no composites: nothing to decide there)
@@ -304,7 +309,8 @@ def explore(ctx):
             else:
                 vf = getattr(ufo2ft, fn)(ds, variableFeatures=vfeat, **wkw)
                 buf = io.BytesIO(); vf.save(buf)
-                targets = [("", buf.getvalue(), [(k, {tagmap[a]: v for a, v in loc.items()}) for k, loc in enumerate(locs)])]
+                user = {a.name: a.map_backward for a in ds.axes}
+                targets = [("", buf.getvalue(), [(k, {tagmap[a]: user[a](v) for a, v in loc.items()}) for k, loc in enumerate(locs)])]
             if fn.startswith("compileVariableTTF"):
                 ref_ds = ufo2ft.compileInterpolatableTTFsFromDS(copy.deepcopy(ds) if False else ds)
             else:
